@@ -70,6 +70,7 @@ _SAFE_METHODS = {
     "str": ("encode", "split", "rsplit", "startswith", "endswith", "strip", "join", "format", "lower", "upper", "replace", "count", "isascii", "isdigit", "isalpha", "isidentifier", "isprintable", "lstrip", "rstrip", "find", "rfind", "partition", "rpartition", "splitlines", "zfill"),
     "bytes": ("decode", "startswith", "endswith"),
     "tuple": ("index", "count"),
+    "int": ("to_bytes", "bit_length"),
 }
 _PY_TYPES = {"int": int, "float": float, "str": str, "bytes": bytes, "list": list, "dict": dict, "tuple": tuple, "bool": bool, "bytearray": bytearray, "set": set}
 
@@ -195,6 +196,19 @@ class Evaluator:
             return True
         if isinstance(e, ast.BinOp):
             l, r = self.ev(e.left), self.ev(e.right)
+            if getattr(l, "sa_symbolic", False) or getattr(r, "sa_symbolic", False):
+                try:
+                    if isinstance(e.op, ast.Add):
+                        return l + r
+                    if isinstance(e.op, ast.Sub):
+                        return l - r
+                except TypeError:
+                    pass
+                raise Unsupported("arithmetic on a symbolic quantity")
+            if isinstance(e.op, ast.Add) and type(l) is type(r) and isinstance(l, (str, bytes, list, tuple)):
+                return l + r
+            if isinstance(e.op, ast.Mult) and isinstance(l, (str, bytes, list, tuple)) and isinstance(r, int) and not isinstance(r, bool) and 0 <= r <= 4096:
+                return l * r
             if isinstance(l, bool) or isinstance(r, bool) or not (isinstance(l, int) and isinstance(r, int)):
                 if not (isinstance(l, (int, bool)) and isinstance(r, (int, bool))):
                     raise Unsupported("binary operator on non-integers")
@@ -286,6 +300,8 @@ class Evaluator:
             if isinstance(fn, ast.Name) and fn.id in ("max", "min", "any", "all", "sorted", "list", "tuple", "enumerate") and fn.id not in self.env:
                 args = [self.ev(a) for a in e.args]
                 kw = {k.arg: self.ev(k.value) for k in e.keywords}
+                if fn.id in ("max", "min") and len(args) == 1 and hasattr(args[0], "sa_" + fn.id):
+                    return getattr(args[0], "sa_" + fn.id)(**kw)
                 if fn.id in ("max", "min"):
                     seq = list(args[0]) if len(args) == 1 else list(args)
                     if not seq:
@@ -348,13 +364,13 @@ class Evaluator:
                     args = self.ev_args(e)
                     kw = {k.arg: self.ev(k.value) for k in e.keywords if k.arg}
                     return recv.fields["()" + fn.attr](*args, **kw)
-                if isinstance(recv, (list, dict, str, bytes, tuple)) and not isinstance(recv, Record) and fn.attr in _SAFE_METHODS.get(type(recv).__name__, ()):
+                if isinstance(recv, (list, dict, str, bytes, tuple, int)) and not isinstance(recv, (Record, bool)) and fn.attr in _SAFE_METHODS.get(type(recv).__name__, ()):
                     args = self.ev_args(e)
                     kw = {k.arg: self.ev(k.value) for k in e.keywords if k.arg}
                     try:
                         r = getattr(recv, fn.attr)(*args, **kw)
                         return list(r) if fn.attr in ("items", "keys", "values") else r
-                    except (IndexError, KeyError, ValueError, TypeError) as ex:
+                    except (IndexError, KeyError, ValueError, TypeError, OverflowError, UnicodeError) as ex:
                         raise PyRaise(type(ex).__name__)
             if isinstance(fn, ast.Name) and fn.id == "hasattr" and len(e.args) == 2:
                 o = self.ev(e.args[0])
